@@ -37,6 +37,9 @@ type VC struct {
 	Obls    []*Obligation
 	Sorts   *sortReg
 	Notes   []string // over-approximations applied (reported in evidence)
+	Replay  []replayTerm
+	ReplayTemplate string
+	Pkg     string
 	Terms   int
 }
 
@@ -783,6 +786,16 @@ func (P *Program) generate(fn *ssa.Function, con *Contract, opts genOpts) (vc *V
 			g.assert(g.specBool(e, r.Expr))
 		}
 	}
+	if fn.Pkg != nil {
+		g.vc.Pkg = fn.Pkg.Pkg.Path()
+	} else if fn.Parent() != nil && fn.Parent().Pkg != nil {
+		g.vc.Pkg = fn.Parent().Pkg.Pkg.Path()
+	}
+	if opts.errprop {
+		g.heapSorts["GHOST.err"] = "Bool"
+		st.heap["GHOST.err"] = "false"
+	}
+	g.prepareReplay()
 	g.guard[fn.Blocks[0]] = "true"
 	for _, b := range order {
 		g.execBlock(b, st)
